@@ -176,3 +176,9 @@ def run(ctx):
     # 7. surrogate pairs: decoding UTF-16 units as UTF-16BE
     dec = [c for c in e.calls if re.search(r"encoding_rs::Encoding::decode", c.fn or "")]
     ctx.ob("R-ORDER", "utf16-units-decoded-as-utf16", len(dec) >= 1, "the collected units are decoded as UTF-16BE (surrogate pairs become one character)", e.where(), what="the units produced by the CMap are no longer decoded as UTF-16")
+    # 8. the CMap is found: /ToUnicode is held by reference, every place in get_font_encoding that reads it resolves it
+    gfe = F.fn("Dictionary::get_font_encoding")
+    tu_raw = [c for x in lib.local_scope(F, gfe) for c in x.calls if c.local and re.search(r"Dictionary::get$", c.cname) and any(lib._const_bytes_through(x, a) == b"ToUnicode" for a in c.args[1:])]
+    tu_der = [c for x in lib.local_scope(F, gfe) for c in x.calls if c.local and re.search(r"Dictionary::get_deref$", c.cname) and any(lib._const_bytes_through(x, a) == b"ToUnicode" for a in c.args[1:])]
+    ctx.ob("R-WHO", "tounicode-behind-a-reference", len(tu_der) >= 1 and not tu_raw, "ToUnicode is fetched with get_deref (%d place(s))" % len(tu_der), gfe.where(tu_raw[0].ln if tu_raw else None),
+           what="get_font_encoding reads /ToUnicode without resolving the reference it is held by: the CMap is skipped and the text is decoded with a default one-byte encoding")
